@@ -544,6 +544,11 @@ func awsOpCase(r *Rng, fleet bool, w io.Writer) string {
 			if fleet {
 				// sizes around the batch boundaries
 				delta = int64(r.pickI(1, 2, 19, 20, 21, 39, 40, 41, 59, 60, 61, 100))
+				// now and then a fleet large enough that its orphans need several TerminateInstances batches
+				big := r.chance(8)
+				if big {
+					delta = int64(r.pickI(1001, 1021, 1999, 2000, 2001, 2500))
+				}
 				g.Max = g.Desired + delta + int64(r.pickI(0, 0, 5, -1))
 				rec.reset()
 				prov.Refresh()
@@ -561,6 +566,22 @@ func awsOpCase(r *Rng, fleet bool, w io.Writer) string {
 				case 1:
 					for t := 0; t < 5; t++ {
 						sim.ec2.notReady[t] = true
+					}
+				}
+				if big {
+					// ready at the first poll (calls: 0 CreateFleet, 1 DescribeInstanceStatus, 2.. AttachInstances); the k-th attach
+					// call fails, so all later batches are orphaned; one of the terminate batches that follow may fail too
+					sim.ec2.fleetMode = "ok"
+					sim.ec2.notReady = map[int]bool{}
+					k := r.rng(0, 3)
+					rec.FailAt = map[int]bool{2 + k: true}
+					switch r.intn(4) {
+					case 0:
+						rec.FailAt[3+k] = true
+					case 1:
+						rec.FailAt[4+k] = true
+					case 2:
+						rec.FailAt[3+k], rec.FailAt[4+k] = true, true
 					}
 				}
 			}
